@@ -20,9 +20,11 @@ def _linit(ctx, rep):
 
 
 def c01(ctx, rep):
+    rules_effects.local_escape(ctx, rep)
     rules_effects.api_abi(ctx, rep)
     rules_tables.word_storage(ctx, rep)
     rules_effects.api_deps(ctx, rep)
+    rules_effects.dep_aliasing(ctx, rep)
     rules_cmp.dispatch(ctx, rep)
     rules_cmp.nfkd_before_split(ctx, rep)
     rules_bounds.helper_contracts(ctx, rep)
@@ -62,6 +64,7 @@ def c02(ctx, rep):
 def c03(ctx, rep):
     rules_effects.api_abi(ctx, rep)
     rules_effects.api_deps(ctx, rep)
+    rules_effects.dep_aliasing(ctx, rep)
     rules_effects.state_reads(ctx, rep)
     rules_bounds.helper_contracts(ctx, rep)
     rules_bits.packing(ctx, rep, want=('layout',))
@@ -75,6 +78,7 @@ def c03(ctx, rep):
 
 
 def c04(ctx, rep):
+    rules_effects.dep_aliasing(ctx, rep)
     rules_effects.api_abi(ctx, rep)
     rules_api.keygen(ctx, rep)
     _linit(ctx, rep)
@@ -108,6 +112,7 @@ def c06(ctx, rep):
 
 
 def c09(ctx, rep):
+    rules_effects.local_escape(ctx, rep)
     rules_bounds.input_immutability(ctx, rep, cfgs=['NsS'])
     rules_cmp.nfkd_before_split(ctx, rep)
     rules_cmp.lazy_normaliser_semantics(ctx, rep)
@@ -137,6 +142,7 @@ def c10(ctx, rep):
 
 
 def c12(ctx, rep):
+    rules_effects.dep_aliasing(ctx, rep)
     rules_api.crypt(ctx, rep)
     rules_bounds.helper_contracts(ctx, rep)
     rules_api.features(ctx, rep)
@@ -148,12 +154,18 @@ def c13(ctx, rep):
     rules_effects.api_abi(ctx, rep)
     rules_effects.state_reads(ctx, rep, cfgs=ctx.configs('path'))
     rules_effects.api_deps(ctx, rep, cfgs=ctx.configs('path'))
+    rules_effects.dep_aliasing(ctx, rep)
     rules_bounds.helper_contracts(ctx, rep)
     _linit(ctx, rep)
     rules_api.inject(ctx, rep)
     rules_api.features(ctx, rep)
     rules_api.keygen(ctx, rep)
     rules_api.encode_api(ctx, rep)
+    rules_api.decoders(ctx, rep)
+    rules_api.detection(ctx, rep)
+    rules_api.load_api(ctx, rep)
+    rules_api.create(ctx, rep)
+    rules_api.crypt(ctx, rep)
     rules_bits.storage_total(ctx, rep)
     rules_effects.frame(ctx, rep, cfgs=ctx.configs('path'))
     return ('inductive decomposition of the simulation: canonical-seed invariant established by every constructor and preserved by crypt '
@@ -161,6 +173,7 @@ def c13(ctx, rep):
 
 
 def c15(ctx, rep):
+    rules_effects.local_escape(ctx, rep)
     rules_own.ownership(ctx, rep)
     rules_api.inject(ctx, rep)
     rules_effects.who_may_call(ctx, rep, cfgs=ctx.configs('path'))
@@ -199,6 +212,7 @@ def c20(ctx, rep):
 def c18(ctx, rep):
     rules_effects.visibility(ctx, rep)
     rules_effects.api_deps(ctx, rep, cfgs=ctx.configs('path'))
+    rules_effects.dep_aliasing(ctx, rep)
     rules_effects.who_may_call(ctx, rep)
     rules_effects.frame(ctx, rep, cfgs=ctx.configs('path'))
     rules_api.inject(ctx, rep)
@@ -229,6 +243,7 @@ def c07(ctx, rep):
 def c17(ctx, rep):
     rules_tables.word_storage(ctx, rep)
     rules_effects.api_deps(ctx, rep)
+    rules_effects.dep_aliasing(ctx, rep)
     rules_tables.phrase_size(ctx, rep)
     rules_bounds.normaliser_buffers(ctx, rep)
     rules_bounds.helper_contracts(ctx, rep)
@@ -238,6 +253,7 @@ def c17(ctx, rep):
 
 
 def c08(ctx, rep):
+    rules_effects.dep_aliasing(ctx, rep)
     rules_tables.word_storage(ctx, rep)
     rules_bounds.input_immutability(ctx, rep, cfgs=['NsS'])
     rules_cmp.dispatch(ctx, rep)
@@ -256,6 +272,8 @@ def c08(ctx, rep):
 
 def c11(ctx, rep):
     rules_effects.api_deps(ctx, rep)
+    rules_effects.dep_aliasing(ctx, rep)
+    rules_effects.frame(ctx, rep)       # (a birthday remembered in static storage between calls is not a function of this call's clock reading)
     rules_birthday.birthday(ctx, rep)
     rules_bounds.helper_contracts(ctx, rep)
     rules_api.create(ctx, rep)
@@ -269,6 +287,8 @@ def c11(ctx, rep):
 
 
 def c14(ctx, rep):
+    rules_effects.local_escape(ctx, rep)
+    rules_effects.dep_aliasing(ctx, rep)
     rules_effects.api_abi(ctx, rep)
     rules_tables.word_storage(ctx, rep)
     rules_bounds.byte_buffer_alignment(ctx, rep, cfgs=ctx.configs('path') if ctx.tier == 'thorough' else None)
@@ -392,6 +412,16 @@ def run(pid, tier, seed, replay=None):
     try:
         expl = ent['fn'](ctx, rep)
     except Exception as e:
+        ua = None; x = e; seen = 0
+        while x is not None and seen < 8:
+            from .bitflow import UnsafeAccess
+            if isinstance(x, UnsafeAccess): ua = x; break
+            x = x.__cause__ or x.__context__; seen += 1
+        if ua is not None and not rep.violations:
+            rep.rule('MEM-1', 'no harness execution performs a memory-unsafe access: an out-of-bounds access to a library object or to an argument of a public function of its documented '
+                     'size, an access through a pointer to a local whose function has returned, or a relational comparison of pointers to two different objects of the library, on a path described by exact constraints over the inputs (a feasible execution), is '
+                     'undefined behaviour whatever the property under analysis says about values')
+            rep.fail('every access of the analysed executions stays inside a live object', ua.where, str(ua)[:300], detail=ua.detail, key='MEM-1|%s' % ua.where)
         if not rep.violations:
             raise
         # a rule already produced a violation with a named construct; a later rule could not be evaluated on this tree
